@@ -134,6 +134,7 @@ type HistCfg struct {
 
 // History is a complete generated multi-file binlog.
 type History struct {
+	wildTS         bool
 	lastXid        uint64
 	Cfg            HistCfg
 	Files          []*BinFile
@@ -178,6 +179,11 @@ type GenOpts struct {
 
 func (h *History) ts(s *Stream) uint32 {
 	h.nextTS += uint32(s.N(3))
+	if h.wildTS && s.Chance(1, 10) {
+		// a session that runs under SET TIMESTAMP (back-filling, replaying old logs):
+		// any second of the 32-bit range, unrelated to its neighbours
+		return uint32(s.U64())
+	}
 	return h.nextTS
 }
 
@@ -1140,6 +1146,7 @@ func genHistory(s *Stream, o0 *GenOpts) *History {
 	oc := *o0 // private copy: the rare modes below rewrite some knobs for this history only
 	o := &oc
 	h := &History{nextTS: 1500000000 + uint32(s.N(100000000))}
+	h.wildTS = s.Chance(1, 3)
 	exact := false
 	manyTables := 0
 	if o.Rare {
@@ -1385,7 +1392,76 @@ func genHistory(s *Stream, o0 *GenOpts) *History {
 	if h.Files[0].Gap > 0 && !h.overflow && s.Chance(1, 2) {
 		h.alignFile0(s)
 	}
+	if len(h.Files) > 1 && !h.overflow && s.Chance(1, 4) {
+		h.twinFiles(s)
+	}
 	return h
+}
+
+// twinFiles pads the start of a later file with one ignorable event so that its
+// first commit ends at exactly the offset of the previous file's last commit
+// (files of equal shape: the same coordinate number means different things in
+// consecutive files).
+func (h *History) twinFiles(s *Stream) {
+	fi := 1 + s.N(len(h.Files)-1)
+	f := h.Files[fi]
+	if f.Gap > 0 || len(f.Head) == 0 {
+		return
+	}
+	var prevLast, first *Unit
+	for _, u := range h.Units {
+		if u.Tx == nil {
+			continue
+		}
+		if u.File == fi-1 {
+			prevLast = u
+		}
+		if u.File == fi && first == nil {
+			first = u
+		}
+	}
+	if prevLast == nil || first == nil {
+		return
+	}
+	min := int64(binlogHeaderSize)
+	if f.Checksum {
+		min += 4
+	}
+	delta := prevLast.Tx.Next.Off - first.Tx.Next.Off
+	if delta < min || delta > 1<<18 || int64(f.Size)+delta > 1<<31 {
+		return
+	}
+	headEnd := f.Head[len(f.Head)-1].End
+	idx := 0
+	for i, e := range f.Events {
+		if e.End == headEnd {
+			idx = i + 1
+		}
+	}
+	body := make([]byte, delta-min)
+	filler := &Event{Type: 77, Timestamp: f.Head[0].Timestamp, ServerID: f.Head[0].ServerID, Body: body,
+		File: fi, Offset: headEnd, End: headEnd + uint32(delta), Desc: "UNKNOWN-TYPE (padding to the previous file's last commit offset)", Unit: -1}
+	filler.Raw = encodeEvent(filler.Timestamp, filler.Type, filler.ServerID, filler.End, 0, body, f.Checksum)
+	for _, e := range f.Events[idx:] {
+		e.Offset = uint32(int64(e.Offset) + delta)
+		e.End = uint32(int64(e.End) + delta)
+		e.Raw = encodeEvent(e.Timestamp, e.Type, e.ServerID, e.End, e.Flags, e.Body, f.Checksum || e.Type == evFormatDesc)
+	}
+	evs := append([]*Event{}, f.Events[:idx]...)
+	evs = append(evs, filler)
+	f.Events = append(evs, f.Events[idx:]...)
+	f.Head = append(f.Head, filler)
+	for _, x := range h.Units {
+		if x.File != fi {
+			continue
+		}
+		x.Start = uint32(int64(x.Start) + delta)
+		x.End = uint32(int64(x.End) + delta)
+		if x.Tx != nil {
+			x.Tx.Next.Off += delta
+		}
+	}
+	f.Size = uint32(int64(f.Size) + delta)
 }
 
 // addPoisonJSONUnit: a transaction with a JSON value that contains an opaque
